@@ -3,6 +3,7 @@
   encoded frame the last 24 quotient bits are the address (DESIGN §11.4).
 -/
 import PyModeS.Proofs.CRC.Poly
+import Mathlib.Tactic.LinearCombination
 import PyModeS.Proofs.Uplink.Encoder
 
 open Polynomial
@@ -90,5 +91,267 @@ theorem natPoly_clmulW (w a b : Nat) : natPoly (clmulW w a b) = natPoly (a % 2 ^
 
 theorem natPoly_clmul (a b : Nat) : natPoly (clmul a b) = natPoly a * natPoly b := by
   rw [clmul, natPoly_clmulW, Nat.mod_eq_of_lt Nat.lt_log2_self]
+
+/-! ### the loop invariant -/
+
+/-- the dividend consumed after `k` steps: `D`, then the first `k` bits of `PA ‖ 0 0 0 …` -/
+def fedN (D PA k : Nat) : Nat := D * 2 ^ k + PA * 2 ^ k / 2 ^ 24
+
+/-- the divisor: the generator aligned at the top of the `(n-24)`-bit register -/
+noncomputable def GX (n : Nat) : (ZMod 2)[X] := Gpoly * X ^ (n - 48)
+
+structure Inv (n D PA k : Nat) (st : Nat × Nat × Nat) (qacc : Nat) : Prop where
+  pa : st.2.1 = PA <<< k
+  lt : st.1 < 2 ^ (n - 24)
+  poly : natPoly st.1 + GX n * natPoly qacc = natPoly (fedN D PA k)
+  ad0 : k ≤ n - 25 → st.2.2 = 0
+  ad1 : n - 25 ≤ k → ∃ C e, 2 * qacc + st.1 / 2 ^ (n - 25) % 2 = C * 2 ^ (k - (n - 25)) + e ∧
+          e < 2 ^ (k - (n - 25)) ∧ st.2.2 = 2 * e
+
+theorem fedN_succ (D PA k : Nat) :
+    fedN D PA (k + 1) = 2 * fedN D PA k + ((PA <<< k) >>> 23 &&& 1) := by
+  unfold fedN
+  rw [Nat.and_one_is_mod, Nat.shiftRight_eq_div_pow, Nat.shiftLeft_eq, Nat.pow_succ,
+    ← Nat.mul_assoc, ← Nat.mul_assoc]
+  generalize PA * 2 ^ k = x
+  generalize D * 2 ^ k = y
+  omega
+
+theorem step_data (n data : Nat) (hn : 56 ≤ n) (hlt : data < 2 ^ (n - 24)) :
+    let data1 := if data &&& 1 <<< (n - 25) ≠ 0 then data ^^^ G <<< (n - 49) else data
+    data1 < 2 ^ (n - 25) ∧
+      natPoly data = natPoly data1 + C ((data / 2 ^ (n - 25) % 2 : Nat) : ZMod 2) * (Gpoly * X ^ (n - 49)) := by
+  intro data1
+  have e24 : n - 24 = (n - 25) + 1 := by omega
+  have hq : data.testBit (n - 25) = decide (data / 2 ^ (n - 25) % 2 = 1) :=
+    Nat.testBit_eq_decide_div_mod_eq
+  by_cases hb : data.testBit (n - 25) = true
+  · have hc : data &&& 1 <<< (n - 25) ≠ 0 := by rw [Nat.one_shiftLeft]; exact (and_two_pow_ne_zero _ _).mpr hb
+    have hd1 : data1 = data ^^^ G <<< (n - 49) := if_pos hc
+    have hq1 : data / 2 ^ (n - 25) % 2 = 1 := by rw [hb] at hq; simpa using hq.symm
+    have hp : G <<< (n - 49) < 2 ^ (n - 24) := by
+      rw [Nat.shiftLeft_eq]
+      have : n - 24 = 25 + (n - 49) := by omega
+      rw [this, Nat.pow_add]
+      exact Nat.mul_lt_mul_of_pos_right G_lt (Nat.pow_pos (by decide))
+    have hpb : (G <<< (n - 49)).testBit (n - 25) = true := by
+      rw [Nat.testBit_shiftLeft]
+      have : n - 25 - (n - 49) = 24 := by omega
+      rw [this, G_testBit_24]; simp; omega
+    refine ⟨?_, ?_⟩
+    · rw [hd1]
+      apply lt_two_pow_of_testBit_false
+      · rw [← e24]; exact Nat.xor_lt_two_pow hlt hp
+      · rw [Nat.testBit_xor, hb, hpb]; rfl
+    · have : data = data1 ^^^ G <<< (n - 49) := by
+        rw [hd1, Nat.xor_assoc, Nat.xor_self, Nat.xor_zero]
+      conv => lhs; rw [this]
+      rw [natPoly_xor, hq1, Nat.shiftLeft_eq, natPoly_mul_two_pow]
+      simp [Gpoly]
+  · have hb' : data.testBit (n - 25) = false := Bool.eq_false_iff.mpr hb
+    have hc : ¬ (data &&& 1 <<< (n - 25) ≠ 0) := by
+      rw [Nat.one_shiftLeft]; intro h; exact hb ((and_two_pow_ne_zero _ _).mp h)
+    have hd1 : data1 = data := if_neg hc
+    have hq0 : data / 2 ^ (n - 25) % 2 = 0 := by
+      rw [hb'] at hq
+      have := Nat.mod_two_eq_zero_or_one (data / 2 ^ (n - 25))
+      rcases this with h | h
+      · exact h
+      · rw [h] at hq; simp at hq
+    refine ⟨?_, ?_⟩
+    · rw [hd1]; exact lt_two_pow_of_testBit_false (by rw [← e24]; exact hlt) hb'
+    · rw [hd1, hq0]; simp
+
+theorem loop_inv (n D PA : Nat) (hn : 56 ≤ n) (hD : D < 2 ^ (n - 24)) (hPA : PA < 2 ^ 24) :
+    ∀ k, ∃ qacc, Inv n D PA k (uplinkLoop n (G <<< (n - 49)) k (D, PA, 0)) qacc := by
+  intro k
+  induction k with
+  | zero =>
+    refine ⟨0, ⟨rfl, hD, ?_, fun _ => rfl, fun h => by omega⟩⟩
+    simp only [uplinkLoop, fedN, natPoly_zero, mul_zero, add_zero, Nat.pow_zero, Nat.mul_one]
+    rw [Nat.div_eq_of_lt hPA, Nat.add_zero]
+  | succ k ih =>
+    obtain ⟨qacc, inv⟩ := ih
+    rcases hst : uplinkLoop n (G <<< (n - 49)) k (D, PA, 0) with ⟨data, pa, ad⟩
+    rw [hst] at inv
+    obtain ⟨ipa, ilt, ipoly, iad0, iad1⟩ := inv
+    dsimp only at ipa ilt ipoly iad0 iad1
+    obtain ⟨h1lt, h1poly⟩ := step_data n data hn ilt
+    rw [uplinkLoop, hst]
+    simp only
+    generalize hd1 : (if data &&& 1 <<< (n - 25) ≠ 0 then data ^^^ G <<< (n - 49) else data) = data1
+      at h1lt h1poly ⊢
+    have hbit : (pa >>> 23 &&& 1) ≤ 1 := by rw [Nat.and_one_is_mod]; omega
+    generalize hbitdef : pa >>> 23 &&& 1 = bit at hbit ⊢
+    have hd2 : data1 <<< 1 + bit = 2 * data1 + bit := by rw [Nat.shiftLeft_eq]; omega
+    rw [hd2]
+    have e24 : n - 24 = (n - 25) + 1 := by omega
+    have hq : data / 2 ^ (n - 25) % 2 ≤ 1 := by omega
+    refine ⟨2 * qacc + data / 2 ^ (n - 25) % 2, ⟨?_, ?_, ?_, ?_, ?_⟩⟩
+    · show pa <<< 1 = PA <<< (k + 1)
+      rw [ipa, ← Nat.shiftLeft_add]
+    · show 2 * data1 + bit < 2 ^ (n - 24)
+      rw [e24, Nat.pow_succ]; omega
+    · show natPoly (2 * data1 + bit) + GX n * natPoly (2 * qacc + data / 2 ^ (n - 25) % 2)
+        = natPoly (fedN D PA (k + 1))
+      rw [fedN_succ, ← ipa, hbitdef, natPoly_two_mul_add _ _ hbit, natPoly_two_mul_add _ _ hbit,
+        natPoly_two_mul_add _ _ hq, ← ipoly, h1poly]
+      have hx : (X : (ZMod 2)[X]) ^ (n - 48) = X ^ (n - 49) * X := by
+        rw [← pow_succ]; congr 1; omega
+      unfold GX
+      rw [hx]
+      ring
+    · intro hk
+      have : ¬ (k + 26 > n) := by omega
+      simp only [this, if_false]
+      exact iad0 (by omega)
+    · intro hk
+      by_cases hk' : k + 1 = n - 25
+      · have : ¬ (k + 26 > n) := by omega
+        simp only [this, if_false]
+        have had : ad = 0 := iad0 (by omega)
+        refine ⟨2 * (2 * qacc + data / 2 ^ (n - 25) % 2) + (2 * data1 + bit) / 2 ^ (n - 25) % 2, 0, ?_, ?_, ?_⟩
+        · rw [hk']; simp
+        · exact Nat.pow_pos (by decide)
+        · exact had
+      · have hge : n - 25 ≤ k := by omega
+        have : k + 26 > n := by omega
+        simp only [this, if_true]
+        obtain ⟨C, e, he1, he2, he3⟩ := iad1 hge
+        have et : k + 1 - (n - 25) = (k - (n - 25)) + 1 := by omega
+        refine ⟨C, 2 * e + (2 * data1 + bit) / 2 ^ (n - 25) % 2, ?_, ?_, ?_⟩
+        · rw [he1, et, Nat.pow_succ, ← Nat.mul_assoc]
+          generalize C * 2 ^ (k - (n - 25)) = y
+          omega
+        · rw [et, Nat.pow_succ]
+          generalize 2 ^ (k - (n - 25)) = y at he2
+          omega
+        · rw [he3, Nat.shiftRight_eq_div_pow, Nat.and_one_is_mod, Nat.shiftLeft_eq]
+          omega
+
+/-! ### the quotient on an encoded frame -/
+
+theorem toPoly_append_zeros (l : Bits) (k : Nat) :
+    toPoly (l ++ List.replicate k false) = toPoly l * X ^ k := by
+  induction k with
+  | zero => simp
+  | succ k ih =>
+    rw [List.replicate_succ', ← List.append_assoc, toPoly_snoc, ih, pow_succ]
+    simp [bitZ, mul_assoc]
+
+theorem natPoly_bin2int (l : Bits) : natPoly (bin2int l) = toPoly l := by
+  induction l using snoc_induction with
+  | nil => simp [bin2int_nil, natPoly_zero, toPoly_nil]
+  | snoc l b ih => rw [bin2int_append_single, natPoly_shift, toPoly_snoc, ih]
+
+theorem GX_monic (n : Nat) : (GX n).Monic := Gpoly_monic.mul (monic_X_pow _)
+
+theorem GX_degree (n : Nat) (hn : 48 ≤ n) : (GX n).degree = ((n - 24 : Nat) : WithBot Nat) := by
+  unfold GX
+  rw [Monic.degree_mul (monic_X_pow _), Gpoly_degree, degree_X_pow]
+  have : n - 24 = 24 + (n - 48) := by omega
+  rw [this]
+  rfl
+
+/-- the full quotient collected by the loop ends with the 24 address bits -/
+theorem quotient_low24 (n D P A qacc data : Nat) (hn : 56 ≤ n) (hA : A < 2 ^ 24)
+    (hdata : data < 2 ^ (n - 24))
+    (hP : natPoly P = (natPoly D * X ^ 24) %ₘ Gpoly)
+    (hinv : natPoly data + GX n * natPoly qacc
+      = natPoly (fedN D (P ^^^ (clmul A G >>> 24)) n)) :
+    qacc % 2 ^ 24 = A := by
+  have ha' := clmul_G_shift_lt hA
+  generalize ha'def : clmul A G >>> 24 = a' at ha' hinv
+  have hPlt : P < 2 ^ 24 := by
+    apply Nat.lt_pow_two_of_testBit
+    intro i hi
+    have hdeg : (natPoly P).degree < 24 := by
+      rw [hP]
+      have := degree_modByMonic_lt (natPoly D * X ^ 24) Gpoly_monic
+      rwa [Gpoly_degree] at this
+    have := (degree_lt_iff_coeff_zero _ _).mp hdeg i (by exact_mod_cast hi)
+    rw [coeff_natPoly] at this
+    revert this
+    cases P.testBit i <;> simp [bitZ]
+  -- the dividend
+  have hfed : fedN D (P ^^^ a') n = (D * 2 ^ 24 + (P ^^^ a')) * 2 ^ (n - 24) := by
+    unfold fedN
+    have e : (2 : Nat) ^ n = 2 ^ (n - 24) * 2 ^ 24 := by rw [← Nat.pow_add]; congr 1; omega
+    have e2 : (P ^^^ a') * (2 ^ (n - 24) * 2 ^ 24) / 2 ^ 24 = (P ^^^ a') * 2 ^ (n - 24) := by
+      rw [← Nat.mul_assoc]; exact Nat.mul_div_cancel _ (Nat.pow_pos (by decide))
+    rw [e, e2]
+    ring
+  have hPA : P ^^^ a' < 2 ^ 24 := Nat.xor_lt_two_pow hPlt ha'
+  have hfedp : natPoly (fedN D (P ^^^ a') n)
+      = (natPoly D * X ^ 24 + (natPoly P + natPoly a')) * (X ^ 24 * X ^ (n - 48)) := by
+    rw [hfed, natPoly_mul_two_pow, natPoly_mul_two_pow_add _ _ _ hPA, natPoly_xor, ← pow_add]
+    congr 2; omega
+  -- T = P + G·QD
+  have h1 := modByMonic_add_div (natPoly D * X ^ 24) Gpoly
+  rw [← hP] at h1
+  -- A·G = a'·x^24 + r
+  have hr : clmul A G % 2 ^ 24 < 2 ^ 24 := Nat.mod_lt _ (Nat.pow_pos (by decide))
+  have h2 : natPoly A * Gpoly = natPoly a' * X ^ 24 + natPoly (clmul A G % 2 ^ 24) := by
+    have : clmul A G = a' * 2 ^ 24 + clmul A G % 2 ^ 24 := by
+      rw [← ha'def, Nat.shiftRight_eq_div_pow]; exact (Nat.div_add_mod' _ _).symm
+    rw [← natPoly_mul_two_pow_add _ _ _ hr, ← this, natPoly_clmul]; rfl
+  generalize clmul A G % 2 ^ 24 = r at hr h2
+  have hPP := natPoly_add_self P
+  have hrr := natPoly_add_self r
+  have key : natPoly (r * 2 ^ (n - 48)) + GX n * ((natPoly D * X ^ 24 /ₘ Gpoly) * X ^ 24 + natPoly A)
+      = natPoly (fedN D (P ^^^ a') n) := by
+    rw [hfedp, natPoly_mul_two_pow]
+    unfold GX
+    linear_combination (X ^ 24 * X ^ (n - 48)) * h1 - (X ^ 24 * X ^ (n - 48)) * hPP
+      + X ^ (n - 48) * h2 + X ^ (n - 48) * hrr
+  have hdeg1 : (natPoly data).degree < (GX n).degree := by
+    rw [GX_degree n (by omega)]; exact degree_natPoly_lt hdata
+  have hdeg2 : (natPoly (r * 2 ^ (n - 48))).degree < (GX n).degree := by
+    rw [GX_degree n (by omega)]
+    apply degree_natPoly_lt
+    have : n - 24 = 24 + (n - 48) := by omega
+    rw [this, Nat.pow_add]
+    exact Nat.mul_lt_mul_of_pos_right hr (Nat.pow_pos (by decide))
+  have u1 := (div_modByMonic_unique _ _ (GX_monic n) ⟨hinv, hdeg1⟩).1
+  have u2 := (div_modByMonic_unique _ _ (GX_monic n) ⟨key, hdeg2⟩).1
+  have hq : natPoly qacc = (natPoly D * X ^ 24 /ₘ Gpoly) * X ^ 24 + natPoly A := by rw [← u1, u2]
+  -- split qacc at bit 24 and compare remainders modulo x^24
+  have hsplit : natPoly qacc = natPoly (qacc / 2 ^ 24) * X ^ 24 + natPoly (qacc % 2 ^ 24) := by
+    rw [← natPoly_mul_two_pow_add _ _ _ (Nat.mod_lt _ (Nat.pow_pos (by decide))), Nat.div_add_mod']
+  have hX : ((X : (ZMod 2)[X]) ^ 24).degree = 24 := degree_X_pow 24
+  have v1 := (div_modByMonic_unique (f := natPoly qacc) (natPoly (qacc / 2 ^ 24)) (natPoly (qacc % 2 ^ 24))
+    (monic_X_pow 24) ⟨by rw [hsplit]; ring, by
+      rw [hX]; exact degree_natPoly_lt (k := 24) (Nat.mod_lt _ (Nat.pow_pos (by decide)))⟩).2
+  have v2 := (div_modByMonic_unique (f := natPoly qacc) (natPoly D * X ^ 24 /ₘ Gpoly) (natPoly A)
+    (monic_X_pow 24) ⟨by rw [hq]; ring, by rw [hX]; exact degree_natPoly_lt (k := 24) hA⟩).2
+  exact natPoly_injective (by rw [← v1, v2])
+
+/-- DESIGN §11.4: on `data ‖ (parity xor top24(A·G))` the loop returns `A` -/
+theorem uplinkLoop_address (d : Bits) (A : Nat) (hA : A < 2 ^ 24) (hd : 32 ≤ d.length) :
+    (uplinkLoop (d.length + 24) (G <<< (d.length + 24 - 49)) (d.length + 24)
+      (bin2int d, uplinkAP d A, 0)).2.2 >>> 2 = A := by
+  have hn : 56 ≤ d.length + 24 := by omega
+  have hD : bin2int d < 2 ^ (d.length + 24 - 24) := by
+    rw [Nat.add_sub_cancel]; exact bin2int_lt d
+  obtain ⟨qacc, inv⟩ := loop_inv (d.length + 24) (bin2int d) (uplinkAP d A) hn hD (uplinkAP_lt d hA)
+    (d.length + 24)
+  rcases hst : uplinkLoop (d.length + 24) (G <<< (d.length + 24 - 49)) (d.length + 24)
+    (bin2int d, uplinkAP d A, 0) with ⟨data, pa, ad⟩
+  rw [hst] at inv
+  obtain ⟨-, ilt, ipoly, -, iad1⟩ := inv
+  dsimp only at ilt ipoly iad1 ⊢
+  have hP : natPoly (remH (d ++ List.replicate 24 false)) = (natPoly (bin2int d) * X ^ 24) %ₘ Gpoly := by
+    rw [remH_eq_modByMonic, toPoly_append_zeros, natPoly_bin2int]
+  have hlow := quotient_low24 (d.length + 24) (bin2int d) _ A qacc data hn hA ilt hP ipoly
+  obtain ⟨C, e, he1, he2, he3⟩ := iad1 (by omega)
+  have e25 : d.length + 24 - (d.length + 24 - 25) = 25 := by omega
+  rw [e25] at he1 he2
+  rw [he3, Nat.shiftRight_eq_div_pow]
+  omega
+
+/-- `uplink_icao` inverts the Annex 10 uplink encoder -/
+theorem uplinkIcao_roundtrip (d : Bits) (A : Nat) (hA : A < 2 ^ 24) (h4 : d.length % 4 = 0)
+    (hd : 32 ≤ d.length) : uplinkIcao (uplinkFrame d A) = hex6 A := by
+  rw [uplinkIcao_frame d A hA h4 hd, uplinkLoop_address d A hA hd]
 
 end PyModeS.Uplink
